@@ -240,6 +240,39 @@ func (cx *Ctx) InstallStdlib2() {
 			k(st, Scalar{r})
 		}
 	}
+	// TrimSuffix / TrimPrefix / HasSuffix / HasPrefix with an affix of constant length: exact
+	affix := func(suffix, trim bool) Intrinsic {
+		return func(fx *FnExec, fr *Frame, call *ssa.CallCommon, args []Value, st *State, site string, k func(*State, Value)) {
+			s := args[0].(StrV)
+			a := args[1].(StrV)
+			if !a.Len.IsConst() || a.Len.Val > 16 {
+				panic(Unsupported{"strings affix function with an affix of symbolic length"})
+			}
+			n := a.Len.Val
+			cs := []*Term{ULe(BV64(n), s.Len)}
+			for i := uint64(0); i < n; i++ {
+				pos := Add(s.Off, BV64(i))
+				if suffix {
+					pos = Add(s.Off, Add(Sub(s.Len, BV64(n)), BV64(i)))
+				}
+				cs = append(cs, Eq(s.C.Elem(pos), a.C.Elem(Add(a.Off, BV64(i)))))
+			}
+			has := And(cs...)
+			if !trim {
+				k(st, Scalar{has})
+				return
+			}
+			if suffix {
+				k(st, StrV{C: s.C, Off: s.Off, Len: Ite(has, Sub(s.Len, BV64(n)), s.Len)})
+			} else {
+				k(st, StrV{C: s.C, Off: Ite(has, Add(s.Off, BV64(n)), s.Off), Len: Ite(has, Sub(s.Len, BV64(n)), s.Len)})
+			}
+		}
+	}
+	in["strings.TrimSuffix"] = affix(true, true)
+	in["strings.TrimPrefix"] = affix(false, true)
+	in["strings.HasSuffix"] = affix(true, false)
+	in["strings.HasPrefix"] = affix(false, false)
 	in["strings.Index"] = idx(false)
 	in["strings.LastIndex"] = idx(true)
 	in["strings.Split"] = func(fx *FnExec, fr *Frame, call *ssa.CallCommon, args []Value, st *State, site string, k func(*State, Value)) {
